@@ -25,7 +25,7 @@ REGISTRY = {
 }
 
 REGISTRY["C20"] = dict(
-    modules=["harness.c20_kernels"], e2=True, engine="E2-pybmc",
+    modules=["harness.c20_kernels", "harness.c20_sets"], e2=True, engine="E2-pybmc",
     technique="pybmc (AST -> z3 bit-vectors, path forking) on the real varint/zig-zag/delta/GInts/Simple16/GrowableArray code; CrossHair on tables and id sets",
     text="The number codecs are interpreted from source over z3 bit-vectors: encode-then-decode equals identity on every feasible "
          "path for the stated ranges/lengths (negated round trip unsat per path, no-overflow and unwinding obligations discharged).",
